@@ -617,6 +617,8 @@ def tasks(tier):
         for pol in POLICIES:
             ts.append(('contracts.c03', 'method_task', ('C03', m, pol)))
     ts += bulk_tasks('C03')
+    ts += [('contracts.c10', 'peekitem_task', ('C03', True)), ('contracts.c10', 'peekitem_task', ('C03', False)),
+           ('contracts.c10', 'accessors_task', ('C03',))]
     return ts
 
 
